@@ -1,6 +1,7 @@
 import Comdex.Lemmas.AmmMatchExact
 import Comdex.Lemmas.AmmFindPriceBook
 import Comdex.Lemmas.AmmPool
+import Comdex.Lemmas.AmmKeeper
 /-!
 # C05 — Batch matching conserves coins and never fills an order beyond its limits
 
@@ -423,21 +424,6 @@ example : lossless 3 [{ d2s1 with amount := 30000, opn := 30000, offer := 30000 
 def OnGrid (os : List Order) (prec : Nat) : Prop :=
   ∀ o ∈ os, ∃ k, k ≤ hiIdx prec ∧ o.price = ((T prec k : Nat) : Int)
 
-theorem findMatchPrice_some_inv (v : View) (prec : Nat) (p : Int) (h : findMatchPrice v prec = some p) :
-    ∃ hb ls, v.highestBuyPrice = some hb ∧ v.lowestSellPrice = some ls ∧ ls ≤ hb := by
-  unfold findMatchPrice at h
-  cases hhb : v.highestBuyPrice with
-  | none => rw [hhb] at h; cases h
-  | some hb =>
-    cases hls : v.lowestSellPrice with
-    | none => rw [hhb, hls] at h; cases h
-    | some ls =>
-      rw [hhb, hls] at h
-      simp only at h
-      by_cases hc : hb < ls
-      · rw [if_pos hc] at h; cases h
-      · exact ⟨hb, ls, rfl, rfl, by omega⟩
-
 /-- **a match price found by `FindMatchPrice` lies between the lowest sell and the highest buy price of the book
 (inclusive), is positive and on the tick grid** -/
 theorem found_price_in_spread (os : List Order) (prec : Nat) (hprec : 10 ^ prec < 2 ^ 300 - 1) (hw : ∀ o ∈ os, Wf o)
@@ -634,5 +620,71 @@ theorem distribution_exact_iff_lossless (os : List Order) (amt p : Int) (hp : 0 
     (plan : List (Order × Int)) (h : planOrders (os.length + 1) os amt p = some plan) :
     planSum plan ≤ amt ∧ (planSum plan = amt ↔ lossless (os.length + 1) os amt p = true) :=
   planOrders_sum_iff _ os amt p hp hamt hw plan h
+
+
+/-! ## stored orders over several batches (the keeper's glue around the matcher)
+
+`Model/AmmKeeper.lean`: `NewUserOrder` (which amounts of a stored order the matcher sees), the matcher as `keeper.Match` calls it,
+`ApplyMatchResult` (write-back), expiry, pruning; one pair without pools. `PlaceOk`: what `ValidateMsgLimitOrder` lets through
+(non-negative amount; the price fitted to the grid is a positive tick). -/
+
+/-- **the amount offered to the matcher never exceeds what is still open** (and the amm order is well-formed): the fact the
+conversion `NewUserOrder` has to establish in every batch — for a buy `min(OpenAmount, RemainingOfferCoin / Price)`, for a sell
+`OpenAmount` -/
+theorem offered_amount_within_open (prec : Nat) (so : SOrder) (h : SInv prec so) :
+    Wf (newUserOrder so) ∧ (newUserOrder so).amount ≤ so.openAmt ∧ (newUserOrder so).offer = so.remaining :=
+  ⟨newUserOrder_wf h, (newUserOrder_fields so).2.2.2.2.2.2.2.2, (newUserOrder_fields so).2.2.2.1⟩
+
+/-- **no stored order is ever filled beyond its amount — across batches.** For every run of any number of batches from the
+empty pair (limit orders placed in every block, then convert all live orders, match with the modelled matcher, write back,
+expire, prune), every stored order has `0 ≤ OpenAmount ≤ Amount`, `0 ≤ RemainingOfferCoin ≤ OfferCoin`; a buy has received
+exactly `Amount − OpenAmount ≤ Amount` base coin; a sell has paid exactly `Amount − OpenAmount` base coin; and over its whole life
+a buyer paid at most `limit × filled` plus less than one quote unit per fill, a seller received at least `limit × filled` minus
+less than one quote unit per fill. -/
+theorem order_within_amount (prec : Nat) (hprec : 10 ^ prec < 2 ^ 300 - 1) (bs : List Batch)
+    (hok : ∀ b ∈ bs, ∀ x ∈ b.placed, PlaceOk prec x.1 x.2.1 x.2.2.1) :
+    ∀ so ∈ (runBatches KState.init prec bs).orders,
+      0 ≤ so.openAmt ∧ so.openAmt ≤ so.amount ∧ 0 ≤ so.remaining ∧ so.remaining ≤ so.offer ∧
+      (so.dir = .buy → so.received = so.amount - so.openAmt ∧ so.received ≤ so.amount) ∧
+      (so.dir = .sell → so.offer - so.remaining = so.amount - so.openAmt) ∧
+      monOrderWithinAmount so = true ∧ monOrderLimit so = true := by
+  intro so hso
+  have h := (runBatches_inv prec hprec KState.init bs (KInv.init prec) hok).inv so hso
+  refine ⟨h.open_nonneg, h.open_le, h.rem_nonneg, h.rem_le, ?_, fun hs => (h.sell_paid hs).1, h.monitors.1, h.monitors.2⟩
+  intro hb
+  have := h.buy_recv hb
+  have := h.open_nonneg
+  exact ⟨by assumption, by omega⟩
+
+/-- the same at the moment the harness looks: right after a block's `EndBlocker` (finished orders not yet pruned), after any
+earlier history -/
+theorem order_within_amount_after_batch (prec : Nat) (hprec : 10 ^ prec < 2 ^ 300 - 1) (bs : List Batch) (b : Batch)
+    (hok : ∀ b ∈ bs, ∀ x ∈ b.placed, PlaceOk prec x.1 x.2.1 x.2.2.1) (hb : ∀ x ∈ b.placed, PlaceOk prec x.1 x.2.1 x.2.2.1) :
+    ∀ so ∈ (batchStep (placeAll (runBatches KState.init prec bs) prec b.placed) prec b.now).orders,
+      monOrderWithinAmount so = true ∧ monOrderLimit so = true := by
+  intro so hso
+  have h0 := runBatches_inv prec hprec KState.init bs (KInv.init prec) hok
+  exact ((batchStep_inv prec hprec _ b.now (placeAll_inv prec _ b.placed h0 hb)).inv so hso).monitors
+
+/-- one batch from ANY state that satisfies the invariant (the induction step, usable for pairs with a history) -/
+theorem order_within_amount_step (prec : Nat) (hprec : 10 ^ prec < 2 ^ 300 - 1) (s : KState) (now : Int) (h : KInv prec s) :
+    KInv prec (batchStep s prec now) :=
+  batchStep_inv prec hprec s now h
+
+/-- non-vacuity, and the scenario of the seeded edit s64 on the model: last price 1.0; a buy of 1000 @ 1.1 (offer 1100) is filled
+600 at 1.0 (400 open, 500 quote left — which would buy 454 at 1.1); against a later sell of 1000 @ 1.0 it takes exactly its 400
+open units (completed: received 1000, 100 quote left) and the seller keeps 600 -/
+example :
+    let P : Int := 1000000000000000000
+    let b1 : Batch := ⟨[(.buy, P, 100, 0), (.sell, P, 100, 0)], 0⟩
+    let b2 : Batch := ⟨[(.buy, 11 * P / 10, 1000, 3600), (.sell, P, 600, 5)], 5⟩
+    let s2 := batchStep (placeAll (runBatches KState.init 4 [b1]) 4 b2.placed) 4 b2.now
+    let s3 := batchStep (placeAll (prune s2) 4 [(.sell, P, 1000, 10)]) 4 10
+    (s2.orders.map fun (o : SOrder) => (o.id, o.openAmt, o.remaining, o.received, o.status.code)) =
+      [(3, 400, 500, 600, 3), (4, 0, 0, 600, 4)] ∧
+    (s3.orders.map fun (o : SOrder) => (o.id, o.openAmt, o.remaining, o.received, o.status.code)) =
+      [(3, 0, 100, 1000, 4), (5, 600, 600, 400, 6)] := by
+  set_option maxRecDepth 100000 in
+  decide
 
 end Comdex.C05
